@@ -15,26 +15,23 @@ structure LBackup (β : Type) where
   stored : String → Bool
   /-- what follows a stored file's content in its archive entry: the tar entry is as long as the size `fstat` announced,
   the record describes the bytes actually read (`FileReader`, C15) - zeros when the file shrank while it was archived,
-  nothing otherwise (`padded`: only a non-empty content is followed by padding - a stored file that announced a
-  non-zero size and was then read as empty is not represented) -/
+  nothing otherwise -/
   pad : String → List β
 
 /-- The archive entry written for a node: data only for files stored here (followed by the padding, if any). -/
-def padded (pad : String → List β) (p : String) (d : List β) : List β := if d.isEmpty then [] else d ++ pad p
+def padded (pad : String → List β) (p : String) (d : List β) : List β := d ++ pad p
 
 def stripE (stored : String → Bool) (pad : String → List β) : Entry β → Entry β
   | .file p m d => .file p m (if stored p then padded pad p d else [])
   | e => e
 
-theorem padded_eq (pad : String → List β) (p : String) (d : List β) : ∃ tail, padded pad p d = d ++ tail := by
-  unfold padded
-  split
-  · rename_i h; exact ⟨[], by simp [List.isEmpty_iff.mp h]⟩
-  · exact ⟨pad p, rfl⟩
+theorem padded_eq (pad : String → List β) (p : String) (d : List β) : ∃ tail, padded pad p d = d ++ tail := ⟨pad p, rfl⟩
 
-/-- The manifest line written for a file: `unique` iff non-empty and stored here. -/
+/-- The manifest line written for a file: `unique` iff stored here (`BackupInstance::add_file` stores a file itself only when
+`fstat` announced a non-zero size and neither its identity nor the hash of a first reading was known; the content may
+still be empty then, when the file was cut to nothing before it was read). -/
 def recG (hashOf : List β → H) (stored : String → Bool) : Entry β → Option (MRec H)
-  | .file p m d => some ⟨decide (d.length ≠ 0) && stored p, hashOf d, d.length, keyOf (fpOf (.file p m d))⟩
+  | .file p m d => some ⟨stored p, hashOf d, d.length, keyOf (fpOf (.file p m d))⟩
   | _ => none
 
 def render (hashOf : List β → H) (lb : LBackup β) : Backup H β :=
